@@ -65,14 +65,15 @@ def lin_parts(x):
 
 
 class Sym(object):
-    """k * LEN  (LEN = unknown length of the buffer)"""
-    __slots__ = ("k",)
+    """k * LEN + c  (LEN = unknown length of the buffer; c an integer constant)"""
+    __slots__ = ("k", "c")
 
-    def __init__(self, k):
+    def __init__(self, k, c=0):
         self.k = k
+        self.c = c
 
     def __repr__(self):
-        return "%d*LEN" % self.k
+        return "%d*LEN%s" % (self.k, "%+d" % self.c if self.c else "")
 
 
 class UBool(object):
@@ -671,9 +672,22 @@ class Interp(object):
             x, y = cx, cy
         if isinstance(x, Sym) or isinstance(y, Sym):
             if base == "Mul" and isinstance(x, Sym) and isinstance(y, int):
-                r = Sym(x.k * y)
+                r = Sym(x.k * y, x.c * y)
             elif base == "Mul" and isinstance(y, Sym) and isinstance(x, int):
-                r = Sym(y.k * x)
+                r = Sym(y.k * x, y.c * x)
+            elif base == "Add" and isinstance(x, Sym) and isinstance(y, int) and not isinstance(y, bool) and 0 <= y < (1 << 32):
+                r = Sym(x.k, x.c + y)
+            elif base == "Add" and isinstance(y, Sym) and isinstance(x, int) and not isinstance(x, bool) and 0 <= x < (1 << 32):
+                r = Sym(y.k, y.c + x)
+            elif base == "Sub" and isinstance(x, Sym) and isinstance(y, int) and not isinstance(y, bool) and 0 <= y < (1 << 32):
+                # k*LEN + c - y: wraps exactly when k*LEN + c < y
+                r = Sym(x.k, x.c - y)
+                nonneg = UBool(x.k, y - x.c, False)          # k*LEN >= y - c
+                if wo:
+                    return Tup([r, UBool(x.k, y - x.c, True)])
+                if self.decide(st, nonneg) is not True:
+                    raise Undecided("subtraction from the buffer length may wrap on this path")
+                return r
             else:
                 raise Undecided("arithmetic %s on the buffer length" % base)
             # overflow of k*LEN: LEN < 2^58 (assumption), k small
@@ -760,8 +774,8 @@ class Interp(object):
                 m = {"Ge": (0, 0), "Lt": (0, 1), "Gt": (1, 0), "Le": (1, 1)}.get(op)
                 if m is None:
                     raise Undecided("equality test on the buffer length")
-                # Ge: k*LEN >= l ; Lt: not ; Gt: k*LEN >= l+1 ; Le: not(k*LEN >= l+1)
-                return UBool(k, add(l, m[0]), bool(m[1]))
+                # Ge: k*LEN >= l ; Lt: not ; Gt: k*LEN >= l+1 ; Le: not(k*LEN >= l+1)        (k*LEN + c >= l  <=>  k*LEN >= l - c)
+                return UBool(k, add(sub(l, x.c) if x.c else l, m[0]), bool(m[1]))
             if isinstance(y, Sym) and lin_parts(x) is not None:
                 flip = {"Ge": "Le", "Le": "Ge", "Gt": "Lt", "Lt": "Gt"}.get(op)
                 if flip is None:
